@@ -41,327 +41,307 @@ macro_rules! some {
 }
 
 // ---- Vec ------------------------------------------------------------------------------------------------------
-// obligation: C01.vec1_u32x2 | harness: c01_vec1_u32x2 | kind: bounded | bound: 2 elements (values all u32) | tier: quick
-#[kani::proof]
-#[kani::stub(bytes::BytesMut::reserve_inner, no_reserve_inner)]
-#[kani::unwind(8)]
-fn c01_vec1_u32x2() {
-    let (a, b): (u32, u32) = (kani::any(), kani::any());
-    let mut buf = BytesMut::with_capacity(96);
-    {
-        let mut v = ok!(ok!(Serializer::new(&mut buf, 0)).serialize_vec1(2));
-        ok!(v.serialize::<tags::U32>(a));
-        ok!(v.serialize::<tags::U32>(b));
+// Each container obligation is split into small harnesses (typed decode / generic front end / skip) because one
+// harness doing all three needed >12 GB in CBMC (measured).
+macro_rules! vec_harness {
+    ($name:ident, $epoch:tt, $mode:tt) => {
+        #[kani::proof]
+        #[kani::stub(bytes::BytesMut::reserve_inner, no_reserve_inner)]
+        #[kani::unwind(8)]
+        fn $name() {
+            let (a, b): (u32, u32) = (kani::any(), kani::any());
+            let mut buf = BytesMut::with_capacity(96);
+            vec_ser!($epoch, buf, a, b);
+            let mut s: &[u8] = &buf[..];
+            vec_de!($epoch, $mode, s, a, b);
+            assert!(s.is_empty());
+        }
+    };
+}
+macro_rules! vec_ser {
+    (1, $buf:ident, $a:ident, $b:ident) => {{
+        let mut v = ok!(ok!(Serializer::new(&mut $buf, 0)).serialize_vec1(2));
+        ok!(v.serialize::<tags::U32>($a));
+        ok!(v.serialize::<tags::U32>($b));
         ok!(v.finish());
-    }
-    assert!(buf[0] == ValueKind::Vec1 as u8);
-    assert!(buf[1] == 2);
-    // legacy-specific and generic front end both accept it
-    let mut s: &[u8] = &buf[..];
-    let mut d = ok!(ok!(Deserializer::new(&mut s, 0)).deserialize_vec1());
-    assert!(d.len() == 2);
-    assert!(some!(ok!(d.deserialize::<tags::U32, u32>())) == a);
-    assert!(some!(ok!(d.deserialize::<tags::U32, u32>())) == b);
-    assert!(ok!(d.deserialize::<tags::U32, u32>()).is_none());
-    ok!(d.finish(()));
-    assert!(s.is_empty());
-    let mut s2: &[u8] = &buf[..];
-    let mut g = ok!(ok!(Deserializer::new(&mut s2, 0)).deserialize_vec());
-    assert!(some!(ok!(g.deserialize::<tags::U32, u32>())) == a);
-    assert!(some!(ok!(g.deserialize::<tags::U32, u32>())) == b);
-    assert!(ok!(g.deserialize::<tags::U32, u32>()).is_none());
-    ok!(g.finish(()));
-    assert!(s2.is_empty());
+        assert!($buf[0] == ValueKind::Vec1 as u8);
+        assert!($buf[1] == 2);
+    }};
+    (2, $buf:ident, $a:ident, $b:ident) => {{
+        let mut v = ok!(ok!(Serializer::new(&mut $buf, 0)).serialize_vec2());
+        ok!(v.serialize::<tags::U32>($a));
+        ok!(v.serialize::<tags::U32>($b));
+        ok!(v.finish());
+        assert!($buf[0] == ValueKind::Vec2 as u8);
+        assert!($buf[$buf.len() - 1] == ValueKind::None as u8);
+    }};
+}
+macro_rules! vec_de {
+    (1, typed, $s:ident, $a:ident, $b:ident) => {{
+        let mut d = ok!(ok!(Deserializer::new(&mut $s, 0)).deserialize_vec1());
+        assert!(d.len() == 2);
+        vec_de_body!(d, $a, $b);
+    }};
+    (2, typed, $s:ident, $a:ident, $b:ident) => {{
+        let mut d = ok!(ok!(Deserializer::new(&mut $s, 0)).deserialize_vec2());
+        vec_de_body!(d, $a, $b);
+    }};
+    ($e:tt, generic, $s:ident, $a:ident, $b:ident) => {{
+        let mut d = ok!(ok!(Deserializer::new(&mut $s, 0)).deserialize_vec());
+        vec_de_body!(d, $a, $b);
+    }};
+}
+macro_rules! vec_de_body {
+    ($d:ident, $a:ident, $b:ident) => {{
+        assert!(some!(ok!($d.deserialize::<tags::U32, u32>())) == $a);
+        assert!(some!(ok!($d.deserialize::<tags::U32, u32>())) == $b);
+        assert!(ok!($d.deserialize::<tags::U32, u32>()).is_none());
+        ok!($d.finish(()));
+    }};
 }
 
-// obligation: C01.vec2_u32x2 | harness: c01_vec2_u32x2 | kind: bounded | bound: 2 elements (values all u32) | tier: quick
-#[kani::proof]
-#[kani::stub(bytes::BytesMut::reserve_inner, no_reserve_inner)]
-#[kani::unwind(8)]
-fn c01_vec2_u32x2() {
-    let (a, b): (u32, u32) = (kani::any(), kani::any());
-    let mut buf = BytesMut::with_capacity(96);
-    {
-        let mut v = ok!(ok!(Serializer::new(&mut buf, 0)).serialize_vec2());
-        ok!(v.serialize::<tags::U32>(a));
-        ok!(v.serialize::<tags::U32>(b));
-        ok!(v.finish());
-    }
-    assert!(buf[0] == ValueKind::Vec2 as u8);
-    assert!(buf[buf.len() - 1] == ValueKind::None as u8);
-    let mut s: &[u8] = &buf[..];
-    let mut d = ok!(ok!(Deserializer::new(&mut s, 0)).deserialize_vec2());
-    assert!(some!(ok!(d.deserialize::<tags::U32, u32>())) == a);
-    assert!(some!(ok!(d.deserialize::<tags::U32, u32>())) == b);
-    assert!(ok!(d.deserialize::<tags::U32, u32>()).is_none());
-    ok!(d.finish(()));
-    assert!(s.is_empty());
-    let mut s2: &[u8] = &buf[..];
-    let mut g = ok!(ok!(Deserializer::new(&mut s2, 0)).deserialize_vec());
-    assert!(some!(ok!(g.deserialize::<tags::U32, u32>())) == a);
-    assert!(some!(ok!(g.deserialize::<tags::U32, u32>())) == b);
-    assert!(ok!(g.deserialize::<tags::U32, u32>()).is_none());
-    ok!(g.finish(()));
-    assert!(s2.is_empty());
-}
+// obligation: C01.vec1_u32x2_typed | harness: c01_vec1_u32x2_typed | kind: bounded | bound: 2 elements (values all u32) | tier: quick
+vec_harness!(c01_vec1_u32x2_typed, 1, typed);
+// obligation: C01.vec1_u32x2_generic | harness: c01_vec1_u32x2_generic | kind: bounded | bound: 2 elements (values all u32) | tier: thorough
+vec_harness!(c01_vec1_u32x2_generic, 1, generic);
+// obligation: C01.vec2_u32x2_typed | harness: c01_vec2_u32x2_typed | kind: bounded | bound: 2 elements (values all u32) | tier: quick
+vec_harness!(c01_vec2_u32x2_typed, 2, typed);
+// obligation: C01.vec2_u32x2_generic | harness: c01_vec2_u32x2_generic | kind: bounded | bound: 2 elements (values all u32) | tier: thorough
+vec_harness!(c01_vec2_u32x2_generic, 2, generic);
 
-// ---- Sets: every integer key tag, both epochs, keys symbolic over the full width --------------------------------
-macro_rules! set_roundtrip {
-    ($name1:ident, $name2:ident, $tag:ty, $ty:ty, $k1:expr, $k2:expr) => {
+// ---- Sets and maps: every integer key tag, both epochs, keys symbolic over the full width ---------------------------
+macro_rules! set_harness {
+    ($name:ident, $tag:ty, $ty:ty, $kind:expr, $ser:ident ( $($serarg:expr),* ), $de:ident, $mode:tt) => {
         #[kani::proof]
         #[kani::stub(bytes::BytesMut::reserve_inner, no_reserve_inner)]
         #[kani::unwind(12)]
-        fn $name1() {
+        fn $name() {
             let (a, b): ($ty, $ty) = (kani::any(), kani::any());
             let mut buf = BytesMut::with_capacity(96);
             {
-                let mut v = ok!(ok!(Serializer::new(&mut buf, 0)).serialize_set1::<$tag>(2));
+                let mut v = ok!(ok!(Serializer::new(&mut buf, 0)).$ser::<$tag>($($serarg),*));
                 ok!(v.serialize(&a));
                 ok!(v.serialize(&b));
                 ok!(v.finish());
             }
-            assert!(buf[0] == $k1 as u8);
+            assert!(buf[0] == $kind as u8);
             let mut s: &[u8] = &buf[..];
-            let mut d = ok!(ok!(Deserializer::new(&mut s, 0)).deserialize_set1::<$tag>());
-            assert!(some!(ok!(d.deserialize::<$ty>())) == a);
-            assert!(some!(ok!(d.deserialize::<$ty>())) == b);
-            assert!(ok!(d.deserialize::<$ty>()).is_none());
-            ok!(d.finish(()));
+            set_de!($mode, $de, $tag, $ty, s, a, b);
             assert!(s.is_empty());
-            let mut s2: &[u8] = &buf[..];
-            let mut g = ok!(ok!(Deserializer::new(&mut s2, 0)).deserialize_set::<$tag>());
-            assert!(some!(ok!(g.deserialize::<$ty>())) == a);
-            assert!(some!(ok!(g.deserialize::<$ty>())) == b);
-            assert!(ok!(g.deserialize::<$ty>()).is_none());
-            ok!(g.finish(()));
-            assert!(s2.is_empty());
-            // skipping the typed container consumes exactly the same bytes (C07: skip agrees with decode)
-            let mut s3: &[u8] = &buf[..];
-            ok!(ok!(ok!(Deserializer::new(&mut s3, 0)).deserialize_set1::<$tag>()).skip());
-            assert!(s3.is_empty());
-        }
-
-        #[kani::proof]
-        #[kani::stub(bytes::BytesMut::reserve_inner, no_reserve_inner)]
-        #[kani::unwind(12)]
-        fn $name2() {
-            let (a, b): ($ty, $ty) = (kani::any(), kani::any());
-            let mut buf = BytesMut::with_capacity(96);
-            {
-                let mut v = ok!(ok!(Serializer::new(&mut buf, 0)).serialize_set2::<$tag>());
-                ok!(v.serialize(&a));
-                ok!(v.serialize(&b));
-                ok!(v.finish());
-            }
-            assert!(buf[0] == $k2 as u8);
-            let mut s: &[u8] = &buf[..];
-            let mut d = ok!(ok!(Deserializer::new(&mut s, 0)).deserialize_set2::<$tag>());
-            assert!(some!(ok!(d.deserialize::<$ty>())) == a);
-            assert!(some!(ok!(d.deserialize::<$ty>())) == b);
-            assert!(ok!(d.deserialize::<$ty>()).is_none());
-            ok!(d.finish(()));
-            assert!(s.is_empty());
-            let mut s2: &[u8] = &buf[..];
-            let mut g = ok!(ok!(Deserializer::new(&mut s2, 0)).deserialize_set::<$tag>());
-            assert!(some!(ok!(g.deserialize::<$ty>())) == a);
-            assert!(some!(ok!(g.deserialize::<$ty>())) == b);
-            assert!(ok!(g.deserialize::<$ty>()).is_none());
-            ok!(g.finish(()));
-            assert!(s2.is_empty());
-            let mut s3: &[u8] = &buf[..];
-            ok!(ok!(ok!(Deserializer::new(&mut s3, 0)).deserialize_set2::<$tag>()).skip());
-            assert!(s3.is_empty());
         }
     };
 }
-
-// obligation: C01.set1_u8x2 | harness: c01_set1_u8x2 | kind: bounded | bound: 2 keys (all values) | tier: thorough
-// obligation: C01.set2_u8x2 | harness: c01_set2_u8x2 | kind: bounded | bound: 2 keys (all values) | tier: thorough
-set_roundtrip!(c01_set1_u8x2, c01_set2_u8x2, tags::U8, u8, ValueKind::U8Set1, ValueKind::U8Set2);
-// obligation: C01.set1_i8x2 | harness: c01_set1_i8x2 | kind: bounded | bound: 2 keys (all values) | tier: thorough
-// obligation: C01.set2_i8x2 | harness: c01_set2_i8x2 | kind: bounded | bound: 2 keys (all values) | tier: thorough
-set_roundtrip!(c01_set1_i8x2, c01_set2_i8x2, tags::I8, i8, ValueKind::I8Set1, ValueKind::I8Set2);
-// obligation: C01.set1_u16x2 | harness: c01_set1_u16x2 | kind: bounded | bound: 2 keys (all values) | tier: quick
-// obligation: C01.set2_u16x2 | harness: c01_set2_u16x2 | kind: bounded | bound: 2 keys (all values) | tier: quick
-set_roundtrip!(c01_set1_u16x2, c01_set2_u16x2, tags::U16, u16, ValueKind::U16Set1, ValueKind::U16Set2);
-// obligation: C01.set1_i16x2 | harness: c01_set1_i16x2 | kind: bounded | bound: 2 keys (all values) | tier: thorough
-// obligation: C01.set2_i16x2 | harness: c01_set2_i16x2 | kind: bounded | bound: 2 keys (all values) | tier: thorough
-set_roundtrip!(c01_set1_i16x2, c01_set2_i16x2, tags::I16, i16, ValueKind::I16Set1, ValueKind::I16Set2);
-// obligation: C01.set1_u32x2 | harness: c01_set1_u32x2 | kind: bounded | bound: 2 keys (all values) | tier: thorough
-// obligation: C01.set2_u32x2 | harness: c01_set2_u32x2 | kind: bounded | bound: 2 keys (all values) | tier: thorough
-set_roundtrip!(c01_set1_u32x2, c01_set2_u32x2, tags::U32, u32, ValueKind::U32Set1, ValueKind::U32Set2);
-// obligation: C01.set1_i32x2 | harness: c01_set1_i32x2 | kind: bounded | bound: 2 keys (all values) | tier: thorough
-// obligation: C01.set2_i32x2 | harness: c01_set2_i32x2 | kind: bounded | bound: 2 keys (all values) | tier: thorough
-set_roundtrip!(c01_set1_i32x2, c01_set2_i32x2, tags::I32, i32, ValueKind::I32Set1, ValueKind::I32Set2);
-// obligation: C01.set1_u64x2 | harness: c01_set1_u64x2 | kind: bounded | bound: 2 keys (all values) | tier: thorough
-// obligation: C01.set2_u64x2 | harness: c01_set2_u64x2 | kind: bounded | bound: 2 keys (all values) | tier: thorough
-set_roundtrip!(c01_set1_u64x2, c01_set2_u64x2, tags::U64, u64, ValueKind::U64Set1, ValueKind::U64Set2);
-// obligation: C01.set1_i64x2 | harness: c01_set1_i64x2 | kind: bounded | bound: 2 keys (all values) | tier: quick
-// obligation: C01.set2_i64x2 | harness: c01_set2_i64x2 | kind: bounded | bound: 2 keys (all values) | tier: quick
-set_roundtrip!(c01_set1_i64x2, c01_set2_i64x2, tags::I64, i64, ValueKind::I64Set1, ValueKind::I64Set2);
-
-// ---- Maps: key symbolic over the full width, value a symbolic u16 ---------------------------------------------------
-macro_rules! map_roundtrip {
-    ($name1:ident, $name2:ident, $tag:ty, $ty:ty, $k1:expr, $k2:expr) => {
+macro_rules! set_de {
+    (decode, $de:ident, $tag:ty, $ty:ty, $s:ident, $a:ident, $b:ident) => {{
+        let mut d = ok!(ok!(Deserializer::new(&mut $s, 0)).$de::<$tag>());
+        assert!(some!(ok!(d.deserialize::<$ty>())) == $a);
+        assert!(some!(ok!(d.deserialize::<$ty>())) == $b);
+        assert!(ok!(d.deserialize::<$ty>()).is_none());
+        ok!(d.finish(()));
+    }};
+    (skip, $de:ident, $tag:ty, $ty:ty, $s:ident, $a:ident, $b:ident) => {{
+        // skipping the typed container consumes exactly what decoding consumes (C07: skip agrees with decode)
+        ok!(ok!(ok!(Deserializer::new(&mut $s, 0)).$de::<$tag>()).skip());
+    }};
+}
+macro_rules! map_harness {
+    ($name:ident, $tag:ty, $ty:ty, $kind:expr, $ser:ident ( $($serarg:expr),* ), $de:ident, $mode:tt) => {
         #[kani::proof]
         #[kani::stub(bytes::BytesMut::reserve_inner, no_reserve_inner)]
         #[kani::unwind(12)]
-        fn $name1() {
+        fn $name() {
             let (a, b): ($ty, $ty) = (kani::any(), kani::any());
             let (x, y): (u16, u16) = (kani::any(), kani::any());
             let mut buf = BytesMut::with_capacity(96);
             {
-                let mut v = ok!(ok!(Serializer::new(&mut buf, 0)).serialize_map1::<$tag>(2));
+                let mut v = ok!(ok!(Serializer::new(&mut buf, 0)).$ser::<$tag>($($serarg),*));
                 ok!(v.serialize::<tags::U16>(&a, x));
                 ok!(v.serialize::<tags::U16>(&b, y));
                 ok!(v.finish());
             }
-            assert!(buf[0] == $k1 as u8);
+            assert!(buf[0] == $kind as u8);
             let mut s: &[u8] = &buf[..];
-            let mut d = ok!(ok!(Deserializer::new(&mut s, 0)).deserialize_map1::<$tag>());
-            let e1 = some!(ok!(d.deserialize_element::<$ty, tags::U16, u16>()));
-            assert!(e1.0 == a && e1.1 == x);
-            let e2 = some!(ok!(d.deserialize_element::<$ty, tags::U16, u16>()));
-            assert!(e2.0 == b && e2.1 == y);
-            assert!(ok!(d.deserialize_element::<$ty, tags::U16, u16>()).is_none());
-            ok!(d.finish(()));
+            map_de!($mode, $de, $tag, $ty, s, a, b, x, y);
             assert!(s.is_empty());
-            let mut s2: &[u8] = &buf[..];
-            let mut g = ok!(ok!(Deserializer::new(&mut s2, 0)).deserialize_map::<$tag>());
-            let e1 = some!(ok!(g.deserialize_element::<$ty, tags::U16, u16>()));
-            assert!(e1.0 == a && e1.1 == x);
-            let e2 = some!(ok!(g.deserialize_element::<$ty, tags::U16, u16>()));
-            assert!(e2.0 == b && e2.1 == y);
-            assert!(ok!(g.deserialize_element::<$ty, tags::U16, u16>()).is_none());
-            ok!(g.finish(()));
-            assert!(s2.is_empty());
-        }
-
-        #[kani::proof]
-        #[kani::stub(bytes::BytesMut::reserve_inner, no_reserve_inner)]
-        #[kani::unwind(12)]
-        fn $name2() {
-            let (a, b): ($ty, $ty) = (kani::any(), kani::any());
-            let (x, y): (u16, u16) = (kani::any(), kani::any());
-            let mut buf = BytesMut::with_capacity(96);
-            {
-                let mut v = ok!(ok!(Serializer::new(&mut buf, 0)).serialize_map2::<$tag>());
-                ok!(v.serialize::<tags::U16>(&a, x));
-                ok!(v.serialize::<tags::U16>(&b, y));
-                ok!(v.finish());
-            }
-            assert!(buf[0] == $k2 as u8);
-            let mut s: &[u8] = &buf[..];
-            let mut d = ok!(ok!(Deserializer::new(&mut s, 0)).deserialize_map2::<$tag>());
-            let e1 = some!(ok!(d.deserialize_element::<$ty, tags::U16, u16>()));
-            assert!(e1.0 == a && e1.1 == x);
-            let e2 = some!(ok!(d.deserialize_element::<$ty, tags::U16, u16>()));
-            assert!(e2.0 == b && e2.1 == y);
-            assert!(ok!(d.deserialize_element::<$ty, tags::U16, u16>()).is_none());
-            ok!(d.finish(()));
-            assert!(s.is_empty());
-            let mut s2: &[u8] = &buf[..];
-            let mut g = ok!(ok!(Deserializer::new(&mut s2, 0)).deserialize_map::<$tag>());
-            let e1 = some!(ok!(g.deserialize_element::<$ty, tags::U16, u16>()));
-            assert!(e1.0 == a && e1.1 == x);
-            let e2 = some!(ok!(g.deserialize_element::<$ty, tags::U16, u16>()));
-            assert!(e2.0 == b && e2.1 == y);
-            assert!(ok!(g.deserialize_element::<$ty, tags::U16, u16>()).is_none());
-            ok!(g.finish(()));
-            assert!(s2.is_empty());
         }
     };
 }
+macro_rules! map_de {
+    (decode, $de:ident, $tag:ty, $ty:ty, $s:ident, $a:ident, $b:ident, $x:ident, $y:ident) => {{
+        let mut d = ok!(ok!(Deserializer::new(&mut $s, 0)).$de::<$tag>());
+        let e1 = some!(ok!(d.deserialize_element::<$ty, tags::U16, u16>()));
+        assert!(e1.0 == $a && e1.1 == $x);
+        let e2 = some!(ok!(d.deserialize_element::<$ty, tags::U16, u16>()));
+        assert!(e2.0 == $b && e2.1 == $y);
+        assert!(ok!(d.deserialize_element::<$ty, tags::U16, u16>()).is_none());
+        ok!(d.finish(()));
+    }};
+}
 
-// obligation: C01.map1_u8x2 | harness: c01_map1_u8x2 | kind: bounded | bound: 2 entries (keys and values all values) | tier: thorough
-// obligation: C01.map2_u8x2 | harness: c01_map2_u8x2 | kind: bounded | bound: 2 entries (keys and values all values) | tier: thorough
-map_roundtrip!(c01_map1_u8x2, c01_map2_u8x2, tags::U8, u8, ValueKind::U8Map1, ValueKind::U8Map2);
-// obligation: C01.map1_i8x2 | harness: c01_map1_i8x2 | kind: bounded | bound: 2 entries (keys and values all values) | tier: thorough
-// obligation: C01.map2_i8x2 | harness: c01_map2_i8x2 | kind: bounded | bound: 2 entries (keys and values all values) | tier: thorough
-map_roundtrip!(c01_map1_i8x2, c01_map2_i8x2, tags::I8, i8, ValueKind::I8Map1, ValueKind::I8Map2);
-// obligation: C01.map1_u16x2 | harness: c01_map1_u16x2 | kind: bounded | bound: 2 entries (keys and values all values) | tier: thorough
-// obligation: C01.map2_u16x2 | harness: c01_map2_u16x2 | kind: bounded | bound: 2 entries (keys and values all values) | tier: thorough
-map_roundtrip!(c01_map1_u16x2, c01_map2_u16x2, tags::U16, u16, ValueKind::U16Map1, ValueKind::U16Map2);
-// obligation: C01.map1_i16x2 | harness: c01_map1_i16x2 | kind: bounded | bound: 2 entries (keys and values all values) | tier: thorough
-// obligation: C01.map2_i16x2 | harness: c01_map2_i16x2 | kind: bounded | bound: 2 entries (keys and values all values) | tier: thorough
-map_roundtrip!(c01_map1_i16x2, c01_map2_i16x2, tags::I16, i16, ValueKind::I16Map1, ValueKind::I16Map2);
-// obligation: C01.map1_u32x2 | harness: c01_map1_u32x2 | kind: bounded | bound: 2 entries (keys and values all values) | tier: quick
-// obligation: C01.map2_u32x2 | harness: c01_map2_u32x2 | kind: bounded | bound: 2 entries (keys and values all values) | tier: quick
-map_roundtrip!(c01_map1_u32x2, c01_map2_u32x2, tags::U32, u32, ValueKind::U32Map1, ValueKind::U32Map2);
-// obligation: C01.map1_i32x2 | harness: c01_map1_i32x2 | kind: bounded | bound: 2 entries (keys and values all values) | tier: thorough
-// obligation: C01.map2_i32x2 | harness: c01_map2_i32x2 | kind: bounded | bound: 2 entries (keys and values all values) | tier: thorough
-map_roundtrip!(c01_map1_i32x2, c01_map2_i32x2, tags::I32, i32, ValueKind::I32Map1, ValueKind::I32Map2);
-// obligation: C01.map1_u64x2 | harness: c01_map1_u64x2 | kind: bounded | bound: 2 entries (keys and values all values) | tier: thorough
-// obligation: C01.map2_u64x2 | harness: c01_map2_u64x2 | kind: bounded | bound: 2 entries (keys and values all values) | tier: thorough
-map_roundtrip!(c01_map1_u64x2, c01_map2_u64x2, tags::U64, u64, ValueKind::U64Map1, ValueKind::U64Map2);
-// obligation: C01.map1_i64x2 | harness: c01_map1_i64x2 | kind: bounded | bound: 2 entries (keys and values all values) | tier: thorough
-// obligation: C01.map2_i64x2 | harness: c01_map2_i64x2 | kind: bounded | bound: 2 entries (keys and values all values) | tier: thorough
-map_roundtrip!(c01_map1_i64x2, c01_map2_i64x2, tags::I64, i64, ValueKind::I64Map1, ValueKind::I64Map2);
+// obligation: C01.set1_u8x2_typed | harness: c01_set1_u8x2_typed | kind: bounded | bound: 2 keys (all values) | tier: quick
+set_harness!(c01_set1_u8x2_typed, tags::U8, u8, ValueKind::U8Set1, serialize_set1(2), deserialize_set1, decode);
+// obligation: C01.set1_u8x2_generic | harness: c01_set1_u8x2_generic | kind: bounded | bound: 2 keys (all values) | tier: thorough
+set_harness!(c01_set1_u8x2_generic, tags::U8, u8, ValueKind::U8Set1, serialize_set1(2), deserialize_set, decode);
+// obligation: C07.set1_u8x2_skip | harness: c07_set1_u8x2_skip | kind: bounded | bound: 2 keys (all values) | tier: thorough
+set_harness!(c07_set1_u8x2_skip, tags::U8, u8, ValueKind::U8Set1, serialize_set1(2), deserialize_set1, skip);
+// obligation: C01.set2_u8x2_typed | harness: c01_set2_u8x2_typed | kind: bounded | bound: 2 keys (all values) | tier: thorough
+set_harness!(c01_set2_u8x2_typed, tags::U8, u8, ValueKind::U8Set2, serialize_set2(), deserialize_set2, decode);
+// obligation: C01.set2_u8x2_generic | harness: c01_set2_u8x2_generic | kind: bounded | bound: 2 keys (all values) | tier: thorough
+set_harness!(c01_set2_u8x2_generic, tags::U8, u8, ValueKind::U8Set2, serialize_set2(), deserialize_set, decode);
+// obligation: C07.set2_u8x2_skip | harness: c07_set2_u8x2_skip | kind: bounded | bound: 2 keys (all values) | tier: thorough
+set_harness!(c07_set2_u8x2_skip, tags::U8, u8, ValueKind::U8Set2, serialize_set2(), deserialize_set2, skip);
+// obligation: C01.set1_i8x2_typed | harness: c01_set1_i8x2_typed | kind: bounded | bound: 2 keys (all values) | tier: thorough
+set_harness!(c01_set1_i8x2_typed, tags::I8, i8, ValueKind::I8Set1, serialize_set1(2), deserialize_set1, decode);
+// obligation: C01.set1_i8x2_generic | harness: c01_set1_i8x2_generic | kind: bounded | bound: 2 keys (all values) | tier: thorough
+set_harness!(c01_set1_i8x2_generic, tags::I8, i8, ValueKind::I8Set1, serialize_set1(2), deserialize_set, decode);
+// obligation: C07.set1_i8x2_skip | harness: c07_set1_i8x2_skip | kind: bounded | bound: 2 keys (all values) | tier: thorough
+set_harness!(c07_set1_i8x2_skip, tags::I8, i8, ValueKind::I8Set1, serialize_set1(2), deserialize_set1, skip);
+// obligation: C01.set2_i8x2_typed | harness: c01_set2_i8x2_typed | kind: bounded | bound: 2 keys (all values) | tier: thorough
+set_harness!(c01_set2_i8x2_typed, tags::I8, i8, ValueKind::I8Set2, serialize_set2(), deserialize_set2, decode);
+// obligation: C01.set2_i8x2_generic | harness: c01_set2_i8x2_generic | kind: bounded | bound: 2 keys (all values) | tier: thorough
+set_harness!(c01_set2_i8x2_generic, tags::I8, i8, ValueKind::I8Set2, serialize_set2(), deserialize_set, decode);
+// obligation: C07.set2_i8x2_skip | harness: c07_set2_i8x2_skip | kind: bounded | bound: 2 keys (all values) | tier: thorough
+set_harness!(c07_set2_i8x2_skip, tags::I8, i8, ValueKind::I8Set2, serialize_set2(), deserialize_set2, skip);
+// obligation: C01.set1_u16x2_typed | harness: c01_set1_u16x2_typed | kind: bounded | bound: 2 keys (all values) | tier: quick
+set_harness!(c01_set1_u16x2_typed, tags::U16, u16, ValueKind::U16Set1, serialize_set1(2), deserialize_set1, decode);
+// obligation: C01.set1_u16x2_generic | harness: c01_set1_u16x2_generic | kind: bounded | bound: 2 keys (all values) | tier: thorough
+set_harness!(c01_set1_u16x2_generic, tags::U16, u16, ValueKind::U16Set1, serialize_set1(2), deserialize_set, decode);
+// obligation: C07.set1_u16x2_skip | harness: c07_set1_u16x2_skip | kind: bounded | bound: 2 keys (all values) | tier: thorough
+set_harness!(c07_set1_u16x2_skip, tags::U16, u16, ValueKind::U16Set1, serialize_set1(2), deserialize_set1, skip);
+// obligation: C01.set2_u16x2_typed | harness: c01_set2_u16x2_typed | kind: bounded | bound: 2 keys (all values) | tier: quick
+set_harness!(c01_set2_u16x2_typed, tags::U16, u16, ValueKind::U16Set2, serialize_set2(), deserialize_set2, decode);
+// obligation: C01.set2_u16x2_generic | harness: c01_set2_u16x2_generic | kind: bounded | bound: 2 keys (all values) | tier: thorough
+set_harness!(c01_set2_u16x2_generic, tags::U16, u16, ValueKind::U16Set2, serialize_set2(), deserialize_set, decode);
+// obligation: C07.set2_u16x2_skip | harness: c07_set2_u16x2_skip | kind: bounded | bound: 2 keys (all values) | tier: quick
+set_harness!(c07_set2_u16x2_skip, tags::U16, u16, ValueKind::U16Set2, serialize_set2(), deserialize_set2, skip);
+// obligation: C01.set1_i16x2_typed | harness: c01_set1_i16x2_typed | kind: bounded | bound: 2 keys (all values) | tier: thorough
+set_harness!(c01_set1_i16x2_typed, tags::I16, i16, ValueKind::I16Set1, serialize_set1(2), deserialize_set1, decode);
+// obligation: C01.set1_i16x2_generic | harness: c01_set1_i16x2_generic | kind: bounded | bound: 2 keys (all values) | tier: thorough
+set_harness!(c01_set1_i16x2_generic, tags::I16, i16, ValueKind::I16Set1, serialize_set1(2), deserialize_set, decode);
+// obligation: C07.set1_i16x2_skip | harness: c07_set1_i16x2_skip | kind: bounded | bound: 2 keys (all values) | tier: thorough
+set_harness!(c07_set1_i16x2_skip, tags::I16, i16, ValueKind::I16Set1, serialize_set1(2), deserialize_set1, skip);
+// obligation: C01.set2_i16x2_typed | harness: c01_set2_i16x2_typed | kind: bounded | bound: 2 keys (all values) | tier: thorough
+set_harness!(c01_set2_i16x2_typed, tags::I16, i16, ValueKind::I16Set2, serialize_set2(), deserialize_set2, decode);
+// obligation: C01.set2_i16x2_generic | harness: c01_set2_i16x2_generic | kind: bounded | bound: 2 keys (all values) | tier: thorough
+set_harness!(c01_set2_i16x2_generic, tags::I16, i16, ValueKind::I16Set2, serialize_set2(), deserialize_set, decode);
+// obligation: C07.set2_i16x2_skip | harness: c07_set2_i16x2_skip | kind: bounded | bound: 2 keys (all values) | tier: thorough
+set_harness!(c07_set2_i16x2_skip, tags::I16, i16, ValueKind::I16Set2, serialize_set2(), deserialize_set2, skip);
+// obligation: C01.set1_u32x2_typed | harness: c01_set1_u32x2_typed | kind: bounded | bound: 2 keys (all values) | tier: thorough
+set_harness!(c01_set1_u32x2_typed, tags::U32, u32, ValueKind::U32Set1, serialize_set1(2), deserialize_set1, decode);
+// obligation: C01.set1_u32x2_generic | harness: c01_set1_u32x2_generic | kind: bounded | bound: 2 keys (all values) | tier: thorough
+set_harness!(c01_set1_u32x2_generic, tags::U32, u32, ValueKind::U32Set1, serialize_set1(2), deserialize_set, decode);
+// obligation: C07.set1_u32x2_skip | harness: c07_set1_u32x2_skip | kind: bounded | bound: 2 keys (all values) | tier: quick
+set_harness!(c07_set1_u32x2_skip, tags::U32, u32, ValueKind::U32Set1, serialize_set1(2), deserialize_set1, skip);
+// obligation: C01.set2_u32x2_typed | harness: c01_set2_u32x2_typed | kind: bounded | bound: 2 keys (all values) | tier: thorough
+set_harness!(c01_set2_u32x2_typed, tags::U32, u32, ValueKind::U32Set2, serialize_set2(), deserialize_set2, decode);
+// obligation: C01.set2_u32x2_generic | harness: c01_set2_u32x2_generic | kind: bounded | bound: 2 keys (all values) | tier: thorough
+set_harness!(c01_set2_u32x2_generic, tags::U32, u32, ValueKind::U32Set2, serialize_set2(), deserialize_set, decode);
+// obligation: C07.set2_u32x2_skip | harness: c07_set2_u32x2_skip | kind: bounded | bound: 2 keys (all values) | tier: thorough
+set_harness!(c07_set2_u32x2_skip, tags::U32, u32, ValueKind::U32Set2, serialize_set2(), deserialize_set2, skip);
+// obligation: C01.set1_i32x2_typed | harness: c01_set1_i32x2_typed | kind: bounded | bound: 2 keys (all values) | tier: thorough
+set_harness!(c01_set1_i32x2_typed, tags::I32, i32, ValueKind::I32Set1, serialize_set1(2), deserialize_set1, decode);
+// obligation: C01.set1_i32x2_generic | harness: c01_set1_i32x2_generic | kind: bounded | bound: 2 keys (all values) | tier: thorough
+set_harness!(c01_set1_i32x2_generic, tags::I32, i32, ValueKind::I32Set1, serialize_set1(2), deserialize_set, decode);
+// obligation: C07.set1_i32x2_skip | harness: c07_set1_i32x2_skip | kind: bounded | bound: 2 keys (all values) | tier: thorough
+set_harness!(c07_set1_i32x2_skip, tags::I32, i32, ValueKind::I32Set1, serialize_set1(2), deserialize_set1, skip);
+// obligation: C01.set2_i32x2_typed | harness: c01_set2_i32x2_typed | kind: bounded | bound: 2 keys (all values) | tier: thorough
+set_harness!(c01_set2_i32x2_typed, tags::I32, i32, ValueKind::I32Set2, serialize_set2(), deserialize_set2, decode);
+// obligation: C01.set2_i32x2_generic | harness: c01_set2_i32x2_generic | kind: bounded | bound: 2 keys (all values) | tier: thorough
+set_harness!(c01_set2_i32x2_generic, tags::I32, i32, ValueKind::I32Set2, serialize_set2(), deserialize_set, decode);
+// obligation: C07.set2_i32x2_skip | harness: c07_set2_i32x2_skip | kind: bounded | bound: 2 keys (all values) | tier: thorough
+set_harness!(c07_set2_i32x2_skip, tags::I32, i32, ValueKind::I32Set2, serialize_set2(), deserialize_set2, skip);
+// obligation: C01.set1_u64x2_typed | harness: c01_set1_u64x2_typed | kind: bounded | bound: 2 keys (all values) | tier: thorough
+set_harness!(c01_set1_u64x2_typed, tags::U64, u64, ValueKind::U64Set1, serialize_set1(2), deserialize_set1, decode);
+// obligation: C01.set1_u64x2_generic | harness: c01_set1_u64x2_generic | kind: bounded | bound: 2 keys (all values) | tier: thorough
+set_harness!(c01_set1_u64x2_generic, tags::U64, u64, ValueKind::U64Set1, serialize_set1(2), deserialize_set, decode);
+// obligation: C07.set1_u64x2_skip | harness: c07_set1_u64x2_skip | kind: bounded | bound: 2 keys (all values) | tier: thorough
+set_harness!(c07_set1_u64x2_skip, tags::U64, u64, ValueKind::U64Set1, serialize_set1(2), deserialize_set1, skip);
+// obligation: C01.set2_u64x2_typed | harness: c01_set2_u64x2_typed | kind: bounded | bound: 2 keys (all values) | tier: thorough
+set_harness!(c01_set2_u64x2_typed, tags::U64, u64, ValueKind::U64Set2, serialize_set2(), deserialize_set2, decode);
+// obligation: C01.set2_u64x2_generic | harness: c01_set2_u64x2_generic | kind: bounded | bound: 2 keys (all values) | tier: thorough
+set_harness!(c01_set2_u64x2_generic, tags::U64, u64, ValueKind::U64Set2, serialize_set2(), deserialize_set, decode);
+// obligation: C07.set2_u64x2_skip | harness: c07_set2_u64x2_skip | kind: bounded | bound: 2 keys (all values) | tier: thorough
+set_harness!(c07_set2_u64x2_skip, tags::U64, u64, ValueKind::U64Set2, serialize_set2(), deserialize_set2, skip);
+// obligation: C01.set1_i64x2_typed | harness: c01_set1_i64x2_typed | kind: bounded | bound: 2 keys (all values) | tier: thorough
+set_harness!(c01_set1_i64x2_typed, tags::I64, i64, ValueKind::I64Set1, serialize_set1(2), deserialize_set1, decode);
+// obligation: C01.set1_i64x2_generic | harness: c01_set1_i64x2_generic | kind: bounded | bound: 2 keys (all values) | tier: thorough
+set_harness!(c01_set1_i64x2_generic, tags::I64, i64, ValueKind::I64Set1, serialize_set1(2), deserialize_set, decode);
+// obligation: C07.set1_i64x2_skip | harness: c07_set1_i64x2_skip | kind: bounded | bound: 2 keys (all values) | tier: thorough
+set_harness!(c07_set1_i64x2_skip, tags::I64, i64, ValueKind::I64Set1, serialize_set1(2), deserialize_set1, skip);
+// obligation: C01.set2_i64x2_typed | harness: c01_set2_i64x2_typed | kind: bounded | bound: 2 keys (all values) | tier: thorough
+set_harness!(c01_set2_i64x2_typed, tags::I64, i64, ValueKind::I64Set2, serialize_set2(), deserialize_set2, decode);
+// obligation: C01.set2_i64x2_generic | harness: c01_set2_i64x2_generic | kind: bounded | bound: 2 keys (all values) | tier: thorough
+set_harness!(c01_set2_i64x2_generic, tags::I64, i64, ValueKind::I64Set2, serialize_set2(), deserialize_set, decode);
+// obligation: C07.set2_i64x2_skip | harness: c07_set2_i64x2_skip | kind: bounded | bound: 2 keys (all values) | tier: thorough
+set_harness!(c07_set2_i64x2_skip, tags::I64, i64, ValueKind::I64Set2, serialize_set2(), deserialize_set2, skip);
+// obligation: C01.map1_u8x2_typed | harness: c01_map1_u8x2_typed | kind: bounded | bound: 2 entries (keys and values all values) | tier: thorough
+map_harness!(c01_map1_u8x2_typed, tags::U8, u8, ValueKind::U8Map1, serialize_map1(2), deserialize_map1, decode);
+// obligation: C01.map1_u8x2_generic | harness: c01_map1_u8x2_generic | kind: bounded | bound: 2 entries (keys and values all values) | tier: thorough
+map_harness!(c01_map1_u8x2_generic, tags::U8, u8, ValueKind::U8Map1, serialize_map1(2), deserialize_map, decode);
+// obligation: C01.map2_u8x2_typed | harness: c01_map2_u8x2_typed | kind: bounded | bound: 2 entries (keys and values all values) | tier: thorough
+map_harness!(c01_map2_u8x2_typed, tags::U8, u8, ValueKind::U8Map2, serialize_map2(), deserialize_map2, decode);
+// obligation: C01.map2_u8x2_generic | harness: c01_map2_u8x2_generic | kind: bounded | bound: 2 entries (keys and values all values) | tier: thorough
+map_harness!(c01_map2_u8x2_generic, tags::U8, u8, ValueKind::U8Map2, serialize_map2(), deserialize_map, decode);
+// obligation: C01.map1_i8x2_typed | harness: c01_map1_i8x2_typed | kind: bounded | bound: 2 entries (keys and values all values) | tier: thorough
+map_harness!(c01_map1_i8x2_typed, tags::I8, i8, ValueKind::I8Map1, serialize_map1(2), deserialize_map1, decode);
+// obligation: C01.map1_i8x2_generic | harness: c01_map1_i8x2_generic | kind: bounded | bound: 2 entries (keys and values all values) | tier: thorough
+map_harness!(c01_map1_i8x2_generic, tags::I8, i8, ValueKind::I8Map1, serialize_map1(2), deserialize_map, decode);
+// obligation: C01.map2_i8x2_typed | harness: c01_map2_i8x2_typed | kind: bounded | bound: 2 entries (keys and values all values) | tier: thorough
+map_harness!(c01_map2_i8x2_typed, tags::I8, i8, ValueKind::I8Map2, serialize_map2(), deserialize_map2, decode);
+// obligation: C01.map2_i8x2_generic | harness: c01_map2_i8x2_generic | kind: bounded | bound: 2 entries (keys and values all values) | tier: thorough
+map_harness!(c01_map2_i8x2_generic, tags::I8, i8, ValueKind::I8Map2, serialize_map2(), deserialize_map, decode);
+// obligation: C01.map1_u16x2_typed | harness: c01_map1_u16x2_typed | kind: bounded | bound: 2 entries (keys and values all values) | tier: thorough
+map_harness!(c01_map1_u16x2_typed, tags::U16, u16, ValueKind::U16Map1, serialize_map1(2), deserialize_map1, decode);
+// obligation: C01.map1_u16x2_generic | harness: c01_map1_u16x2_generic | kind: bounded | bound: 2 entries (keys and values all values) | tier: thorough
+map_harness!(c01_map1_u16x2_generic, tags::U16, u16, ValueKind::U16Map1, serialize_map1(2), deserialize_map, decode);
+// obligation: C01.map2_u16x2_typed | harness: c01_map2_u16x2_typed | kind: bounded | bound: 2 entries (keys and values all values) | tier: thorough
+map_harness!(c01_map2_u16x2_typed, tags::U16, u16, ValueKind::U16Map2, serialize_map2(), deserialize_map2, decode);
+// obligation: C01.map2_u16x2_generic | harness: c01_map2_u16x2_generic | kind: bounded | bound: 2 entries (keys and values all values) | tier: thorough
+map_harness!(c01_map2_u16x2_generic, tags::U16, u16, ValueKind::U16Map2, serialize_map2(), deserialize_map, decode);
+// obligation: C01.map1_i16x2_typed | harness: c01_map1_i16x2_typed | kind: bounded | bound: 2 entries (keys and values all values) | tier: thorough
+map_harness!(c01_map1_i16x2_typed, tags::I16, i16, ValueKind::I16Map1, serialize_map1(2), deserialize_map1, decode);
+// obligation: C01.map1_i16x2_generic | harness: c01_map1_i16x2_generic | kind: bounded | bound: 2 entries (keys and values all values) | tier: thorough
+map_harness!(c01_map1_i16x2_generic, tags::I16, i16, ValueKind::I16Map1, serialize_map1(2), deserialize_map, decode);
+// obligation: C01.map2_i16x2_typed | harness: c01_map2_i16x2_typed | kind: bounded | bound: 2 entries (keys and values all values) | tier: thorough
+map_harness!(c01_map2_i16x2_typed, tags::I16, i16, ValueKind::I16Map2, serialize_map2(), deserialize_map2, decode);
+// obligation: C01.map2_i16x2_generic | harness: c01_map2_i16x2_generic | kind: bounded | bound: 2 entries (keys and values all values) | tier: thorough
+map_harness!(c01_map2_i16x2_generic, tags::I16, i16, ValueKind::I16Map2, serialize_map2(), deserialize_map, decode);
+// obligation: C01.map1_u32x2_typed | harness: c01_map1_u32x2_typed | kind: bounded | bound: 2 entries (keys and values all values) | tier: thorough
+map_harness!(c01_map1_u32x2_typed, tags::U32, u32, ValueKind::U32Map1, serialize_map1(2), deserialize_map1, decode);
+// obligation: C01.map1_u32x2_generic | harness: c01_map1_u32x2_generic | kind: bounded | bound: 2 entries (keys and values all values) | tier: thorough
+map_harness!(c01_map1_u32x2_generic, tags::U32, u32, ValueKind::U32Map1, serialize_map1(2), deserialize_map, decode);
+// obligation: C01.map2_u32x2_typed | harness: c01_map2_u32x2_typed | kind: bounded | bound: 2 entries (keys and values all values) | tier: thorough
+map_harness!(c01_map2_u32x2_typed, tags::U32, u32, ValueKind::U32Map2, serialize_map2(), deserialize_map2, decode);
+// obligation: C01.map2_u32x2_generic | harness: c01_map2_u32x2_generic | kind: bounded | bound: 2 entries (keys and values all values) | tier: thorough
+map_harness!(c01_map2_u32x2_generic, tags::U32, u32, ValueKind::U32Map2, serialize_map2(), deserialize_map, decode);
+// obligation: C01.map1_i32x2_typed | harness: c01_map1_i32x2_typed | kind: bounded | bound: 2 entries (keys and values all values) | tier: thorough
+map_harness!(c01_map1_i32x2_typed, tags::I32, i32, ValueKind::I32Map1, serialize_map1(2), deserialize_map1, decode);
+// obligation: C01.map1_i32x2_generic | harness: c01_map1_i32x2_generic | kind: bounded | bound: 2 entries (keys and values all values) | tier: thorough
+map_harness!(c01_map1_i32x2_generic, tags::I32, i32, ValueKind::I32Map1, serialize_map1(2), deserialize_map, decode);
+// obligation: C01.map2_i32x2_typed | harness: c01_map2_i32x2_typed | kind: bounded | bound: 2 entries (keys and values all values) | tier: thorough
+map_harness!(c01_map2_i32x2_typed, tags::I32, i32, ValueKind::I32Map2, serialize_map2(), deserialize_map2, decode);
+// obligation: C01.map2_i32x2_generic | harness: c01_map2_i32x2_generic | kind: bounded | bound: 2 entries (keys and values all values) | tier: thorough
+map_harness!(c01_map2_i32x2_generic, tags::I32, i32, ValueKind::I32Map2, serialize_map2(), deserialize_map, decode);
+// obligation: C01.map1_u64x2_typed | harness: c01_map1_u64x2_typed | kind: bounded | bound: 2 entries (keys and values all values) | tier: thorough
+map_harness!(c01_map1_u64x2_typed, tags::U64, u64, ValueKind::U64Map1, serialize_map1(2), deserialize_map1, decode);
+// obligation: C01.map1_u64x2_generic | harness: c01_map1_u64x2_generic | kind: bounded | bound: 2 entries (keys and values all values) | tier: thorough
+map_harness!(c01_map1_u64x2_generic, tags::U64, u64, ValueKind::U64Map1, serialize_map1(2), deserialize_map, decode);
+// obligation: C01.map2_u64x2_typed | harness: c01_map2_u64x2_typed | kind: bounded | bound: 2 entries (keys and values all values) | tier: thorough
+map_harness!(c01_map2_u64x2_typed, tags::U64, u64, ValueKind::U64Map2, serialize_map2(), deserialize_map2, decode);
+// obligation: C01.map2_u64x2_generic | harness: c01_map2_u64x2_generic | kind: bounded | bound: 2 entries (keys and values all values) | tier: thorough
+map_harness!(c01_map2_u64x2_generic, tags::U64, u64, ValueKind::U64Map2, serialize_map2(), deserialize_map, decode);
+// obligation: C01.map1_i64x2_typed | harness: c01_map1_i64x2_typed | kind: bounded | bound: 2 entries (keys and values all values) | tier: thorough
+map_harness!(c01_map1_i64x2_typed, tags::I64, i64, ValueKind::I64Map1, serialize_map1(2), deserialize_map1, decode);
+// obligation: C01.map1_i64x2_generic | harness: c01_map1_i64x2_generic | kind: bounded | bound: 2 entries (keys and values all values) | tier: thorough
+map_harness!(c01_map1_i64x2_generic, tags::I64, i64, ValueKind::I64Map1, serialize_map1(2), deserialize_map, decode);
+// obligation: C01.map2_i64x2_typed | harness: c01_map2_i64x2_typed | kind: bounded | bound: 2 entries (keys and values all values) | tier: thorough
+map_harness!(c01_map2_i64x2_typed, tags::I64, i64, ValueKind::I64Map2, serialize_map2(), deserialize_map2, decode);
+// obligation: C01.map2_i64x2_generic | harness: c01_map2_i64x2_generic | kind: bounded | bound: 2 entries (keys and values all values) | tier: thorough
+map_harness!(c01_map2_i64x2_generic, tags::I64, i64, ValueKind::I64Map2, serialize_map2(), deserialize_map, decode);
 
 // ---- Struct, Enum, Option ----------------------------------------------------------------------------------------
-// obligation: C01.struct1_x2 | harness: c01_struct1_x2 | kind: bounded | bound: 2 fields (ids all u32, values all u16/u8) | tier: quick
-#[kani::proof]
-#[kani::stub(bytes::BytesMut::reserve_inner, no_reserve_inner)]
-#[kani::unwind(10)]
-fn c01_struct1_x2() {
-    let (i, j): (u32, u32) = (kani::any(), kani::any());
-    let (x, y): (u16, u8) = (kani::any(), kani::any());
-    let mut buf = BytesMut::with_capacity(96);
-    {
-        let mut v = ok!(ok!(Serializer::new(&mut buf, 0)).serialize_struct1(2));
-        ok!(v.serialize::<tags::U16>(i, x));
-        ok!(v.serialize::<tags::U8>(j, y));
-        ok!(v.finish());
-    }
-    assert!(buf[0] == ValueKind::Struct1 as u8);
-    let mut s: &[u8] = &buf[..];
-    let mut d = ok!(ok!(Deserializer::new(&mut s, 0)).deserialize_struct());
-    {
-        let f = some!(ok!(d.deserialize()));
-        assert!(f.id() == i);
-        assert!(ok!(f.deserialize::<tags::U16, u16>()) == x);
-    }
-    {
-        let f = some!(ok!(d.deserialize()));
-        assert!(f.id() == j);
-        assert!(ok!(f.deserialize::<tags::U8, u8>()) == y);
-    }
-    assert!(ok!(d.deserialize()).is_none());
-    ok!(d.finish(()));
-    assert!(s.is_empty());
-}
-
-// obligation: C01.struct2_x2 | harness: c01_struct2_x2 | kind: bounded | bound: 2 fields (ids all u32, values all u16/u8) | tier: quick
-#[kani::proof]
-#[kani::stub(bytes::BytesMut::reserve_inner, no_reserve_inner)]
-#[kani::unwind(10)]
-fn c01_struct2_x2() {
-    let (i, j): (u32, u32) = (kani::any(), kani::any());
-    let (x, y): (u16, u8) = (kani::any(), kani::any());
-    let mut buf = BytesMut::with_capacity(96);
-    {
-        let mut v = ok!(ok!(Serializer::new(&mut buf, 0)).serialize_struct2());
-        ok!(v.serialize::<tags::U16>(i, x));
-        ok!(v.serialize::<tags::U8>(j, y));
-        ok!(v.finish());
-    }
-    assert!(buf[0] == ValueKind::Struct2 as u8);
-    let mut s: &[u8] = &buf[..];
-    let mut d = ok!(ok!(Deserializer::new(&mut s, 0)).deserialize_struct());
-    {
-        let f = some!(ok!(d.deserialize()));
-        assert!(f.id() == i);
-        assert!(ok!(f.deserialize::<tags::U16, u16>()) == x);
-    }
-    {
-        let f = some!(ok!(d.deserialize()));
-        assert!(f.id() == j);
-        assert!(ok!(f.deserialize::<tags::U8, u8>()) == y);
-    }
-    assert!(ok!(d.deserialize()).is_none());
-    ok!(d.finish(()));
-    assert!(s.is_empty());
-}
+// Struct decoding is NOT covered: every struct deserializer constructs an UnknownFields (a HashMap), and
+// std's RandomState::new() reaches getrandom(2), which Kani cannot execute ("foreign function syscall not supported").
 
 // obligation: C01.enum_roundtrip | harness: c01_enum_roundtrip | kind: complete | bound: none (all variant ids, all u16 payloads) | tier: quick
 #[kani::proof]
@@ -395,7 +375,7 @@ fn c01_option_roundtrip() {
 }
 
 // ---- Bytes ---------------------------------------------------------------------------------------------------------
-// obligation: C01.bytes1_len3 | harness: c01_bytes1_len3 | kind: bounded | bound: 3 bytes (contents symbolic) | tier: quick
+// obligation: C01.bytes1_len3 | harness: c01_bytes1_len3 | kind: bounded | bound: 3 bytes (contents symbolic) | tier: thorough
 #[kani::proof]
 #[kani::stub(bytes::BytesMut::reserve_inner, no_reserve_inner)]
 #[kani::unwind(8)]
@@ -415,7 +395,7 @@ fn c01_bytes1_len3() {
     assert!(s.is_empty());
 }
 
-// obligation: C01.bytes2_len3 | harness: c01_bytes2_len3 | kind: bounded | bound: 3 bytes (contents symbolic) | tier: quick
+// obligation: C01.bytes2_len3 | harness: c01_bytes2_len3 | kind: bounded | bound: 3 bytes (contents symbolic) | tier: thorough
 #[kani::proof]
 #[kani::stub(bytes::BytesMut::reserve_inner, no_reserve_inner)]
 #[kani::unwind(8)]
